@@ -380,6 +380,13 @@ class Impl:
             f = self.get(toks[1])
             cl = "left" if toks[2] in ("left", "L") else "right"
             stat = toks[3]
+            if toks[4:] == ["unit"]:
+                res = f.hist(closed=cl, stat=stat) if not (cl == "left" and o.get("dflt") == "1") else f.hist(stat=stat)
+                if res.index.closed != cl:
+                    return ("err", "Other:UnitBinsClosed")
+                return ("pairs", [((Fraction(iv.left), Fraction(iv.right)),
+                                   d.length(v) if isinstance(v, (pd.Timedelta, np.timedelta64)) else val(v))
+                                  for iv, v in res.items()])
             bins = [tuple(F(x) for x in t.split(":")) for t in toks[4:]]
             how = o.get("bins", "breaks")
             contiguous = all(bins[i][1] == bins[i + 1][0] for i in range(len(bins) - 1))
@@ -392,8 +399,11 @@ class Impl:
                 ii = pd.IntervalIndex.from_arrays([float(x[0]) for x in bins], [float(x[1]) for x in bins], closed=cl)
                 res = f.hist(bins=ii, stat=stat)
             if how == "unit":
-                return ("pairs", [((Fraction(iv.left), Fraction(iv.right)), val(v)) for iv, v in res.items()])
-            return ("vals", [val(v) for v in res.values])
+                got = [(Fraction(iv.left), Fraction(iv.right)) for iv in res.index]
+                if got != bins or res.index.closed != cl:
+                    return ("err", "Other:UnitBins:" + str(got)[:60])
+            return ("vals", [d.length(v) if isinstance(v, (pd.Timedelta, np.timedelta64)) else val(v)
+                             for v in list(res)])
         if cmd == "views":
             return self.views(self.get(toks[1]))
         if cmd == "arraybin":
